@@ -51,6 +51,29 @@ type Node struct {
 	// hook called after NewSimApp (mode B swaps the route here)
 	OnBoot func(n *Node)
 	modeB  *ModeB
+	// fault: crash between FinalizeBlock and Commit of the next block
+	CrashBeforeCommit bool
+	CrashDiff         string
+}
+
+// diffFinalize describes the first difference between two executions of the same block ("" = identical).
+func diffFinalize(a, b *abci.ResponseFinalizeBlock) string {
+	if !bytes.Equal(a.AppHash, b.AppHash) {
+		return fmt.Sprintf("app hash %x vs %x", a.AppHash, b.AppHash)
+	}
+	if len(a.TxResults) != len(b.TxResults) {
+		return "number of tx results"
+	}
+	for i := range a.TxResults {
+		x, y := a.TxResults[i], b.TxResults[i]
+		if x.Code != y.Code || x.Codespace != y.Codespace || x.GasUsed != y.GasUsed || !bytes.Equal(x.Data, y.Data) {
+			return fmt.Sprintf("tx %d: code/gas/data %d/%s/%d vs %d/%s/%d", i, x.Code, x.Codespace, x.GasUsed, y.Code, y.Codespace, y.GasUsed)
+		}
+		if eventsDigest(x.Events) != eventsDigest(y.Events) {
+			return fmt.Sprintf("tx %d: events", i)
+		}
+	}
+	return ""
 }
 
 func (n *Node) Boot() {
@@ -129,9 +152,23 @@ func (n *Node) Block(txs []*PendingTx, dt time.Duration) *abci.ResponseFinalizeB
 	}
 	n.Height++
 	n.now = n.now.Add(dt)
-	res, err := n.App.FinalizeBlock(&abci.RequestFinalizeBlock{Height: n.Height, Time: n.now, Txs: raw, NextValidatorsHash: n.valSet.Hash()})
+	req := &abci.RequestFinalizeBlock{Height: n.Height, Time: n.now, Txs: raw, NextValidatorsHash: n.valSet.Hash()}
+	res, err := n.App.FinalizeBlock(req)
 	if err != nil {
 		panic(fmt.Sprintf("FinalizeBlock: %v", err))
+	}
+	n.CrashDiff = ""
+	if n.CrashBeforeCommit {
+		// the process dies after executing the block and before committing it: nothing of the execution is
+		// durable; after the restart consensus hands the same block to the application again
+		n.CrashBeforeCommit = false
+		first := res
+		n.Boot()
+		res, err = n.App.FinalizeBlock(req)
+		if err != nil {
+			panic(fmt.Sprintf("FinalizeBlock after crash: %v", err))
+		}
+		n.CrashDiff = diffFinalize(first, res)
 	}
 	if _, err := n.App.Commit(); err != nil {
 		panic(fmt.Sprintf("Commit: %v", err))
